@@ -129,8 +129,105 @@ func (w *lifeW) curCycle() *lifeCycle {
 	return w.cycles[len(w.cycles)-1]
 }
 
+// lifeNested: a REGISTER handler decides the session is unwanted and calls
+// Close; a DISCONNECTED handler always reconnects.  The second Connect is thus
+// issued from inside the first one (Connect -> REGISTER -> Close ->
+// DISCONNECTED -> Connect).  Everything must return, each connection gets one
+// REGISTER and the first one DISCONNECTED, and the second connection is usable.
+func lifeNested(e *Env, g G) {
+	track, flood := g.Bool(), g.Bool()
+	e.S.Count("fault.close-from-register-handler-with-reconnecting-disconnected-handler")
+	e.Notef("nested reconnect: track=%v flood-protection=%v", track, !flood)
+	var links []*simnet.Link
+	e.LinkPlan = func(l *simnet.Link) { l.ChunkMode = g.Intn(4) }
+	regs2 := []string{}
+	e.OnDial = func(l *simnet.Link) {
+		links = append(links, l)
+		no := len(links)
+		e.S.Spawn(fmt.Sprintf("server%d", no), func() {
+			reg, ok := Registration(l, time.Hour)
+			if no == 2 {
+				regs2 = reg
+			}
+			if !ok {
+				return
+			}
+			Welcome(l, "nest")
+			for {
+				ln, ok := l.RecvLine()
+				if !ok {
+					return
+				}
+				if strings.HasPrefix(ln, "PING") {
+					continue
+				}
+			}
+		})
+	}
+	c := NewClient(g.Knobs(ClientOpts{Nick: "nest", Ident: "sim", Name: "Sim User", Flood: flood, Track: track}))
+	regN, discN := 0, 0
+	closedOnce, reconnectedOnce := false, false
+	var closeErr, connErr2 error
+	c.HandleFunc(client.REGISTER, func(c *client.Conn, l *client.Line) {
+		regN++
+		if !closedOnce {
+			closedOnce = true
+			closeErr = c.Close()
+		}
+	})
+	c.HandleFunc(client.DISCONNECTED, func(c *client.Conn, l *client.Line) {
+		discN++
+		if !reconnectedOnce {
+			reconnectedOnce = true
+			connErr2 = c.Connect()
+		}
+	})
+	returned := false
+	var connErr1 error
+	e.S.Spawn("connector", func() {
+		connErr1 = c.Connect()
+		returned = true
+	})
+	if !simrt.BlockFor("life.nested", "the outer Connect to return", time.Hour, func() bool { return returned }) {
+		e.Violation("nested-reconnect", "a REGISTER handler called Close and a DISCONNECTED handler reconnected: the outer Connect did not return (REGISTER ran %d times, DISCONNECTED %d times)\n%s", regN, discN, e.S.TaskDump())
+		return
+	}
+	simrt.Settle(30 * time.Second)
+	e.Check()
+	if connErr1 != nil || connErr2 != nil || closeErr != nil {
+		e.Violation("nested-reconnect", "outer Connect returned %v, Close in the REGISTER handler %v, Connect in the DISCONNECTED handler %v", connErr1, closeErr, connErr2)
+		return
+	}
+	if regN != 2 || discN != 1 || len(links) != 2 {
+		e.Violation("nested-reconnect", "two connections were established and the first was closed: REGISTER ran %d times (want 2), DISCONNECTED %d times (want 1), %d dials", regN, discN, len(links))
+		return
+	}
+	if !c.Connected() {
+		e.Violation("nested-reconnect", "Connected() is false although the second connection is up")
+		return
+	}
+	if len(regs2) > 0 && regs2[0] == "CAP LS" {
+		regs2 = regs2[1:] // the SASL knob turns negotiation on
+	}
+	if len(regs2) != 2 || regs2[0] != "NICK nest" || !strings.HasPrefix(regs2[1], "USER ") {
+		e.Violation("nested-reconnect", "the second connection opened with %q, want NICK nest and USER", regs2)
+		return
+	}
+	links[1].SendLine("PING :nested")
+	simrt.Settle(30 * time.Second)
+	done := false
+	e.S.Spawn("final-closer", func() { c.Close(); done = true })
+	if !simrt.BlockFor("life.nested", "the final Close", 10*time.Minute, func() bool { return done && discN == 2 }) {
+		e.Violation("nested-reconnect", "the final Close of the second connection did not complete: returned=%v DISCONNECTED=%d\n%s", done, discN, e.S.TaskDump())
+	}
+}
+
 func lifeRun(e *Env) {
 	g := G{e.S}
+	if g.Pct(6) {
+		lifeNested(e, g)
+		return
+	}
 	w := &lifeW{e: e, g: g, discOther: map[string]int{}}
 	c07 := e.Prop == "C07"
 	w.track = g.Bool()
